@@ -1,31 +1,587 @@
-//! C03 — placeholder (not registered in MANIFEST until built).
+//! C03 — admission is the canonical greedy independent set with exact blocking witnesses.
+//!
+//! Scheduled party: the *history of calls* on one stateful scheduler instance (hook H2,
+//! `RawScheduler`) and the interleaving of 1-3 transactions (plus a stratified block of mini
+//! transactions): enqueue* (with last-wins re-enqueue), drain, reserve per drained candidate,
+//! optional second enqueue/drain/reserve batch, re-drain, finalize or premature finalize, and
+//! reuse of the instance (and of transaction ids) by later rounds. The same history is fed to a
+//! Radix and a Legacy scheduler and to an independent reference (`model::RefScheduler`).
+//! Blocker witnesses are checked on the engine path (small engine tick in ~1 of 4 runs).
+
+mod gen;
+mod model;
+mod real;
 
 use serde::{Deserialize, Serialize};
+use warp_core::{NodeId, NodeKey, SchedulerKind, TickReceipt, TickReceiptDisposition, TickReceiptEntry, TickReceiptRejection, TxId};
 
-use crate::kernel::{Outcome, PropertySpec, Rng, RunCtx, Scenario, Tier};
+use crate::kernel::{self, Outcome, PropertySpec, Rng, RunCtx, Scenario, Tier};
+use crate::props::c01;
+use crate::world::gen::StateSpec;
+use crate::world::tick::{ref_tick, run_tick, Cand, EngineCfg, TickResult};
+
+use model::{drive, DKey, Masks, RefScheduler, Round, TxObs};
+use real::Real;
 
 pub const SPEC: PropertySpec = PropertySpec {
     id: "C03",
     level: "exploration",
-    rule: "placeholder",
-    quick_runs: 1,
-    thorough_runs: 1,
-    real_components: &[],
-    stub_components: &[],
-    assumptions: &[],
+    rule: "scenario = operation history on one RawScheduler instance per kind (Radix, Legacy): rounds of 1-3 seeded-interleaved transactions (enqueue* with last-wins re-enqueue under a different footprint and tag, drain, reserve in order, optional second batch, re-drain, finalize or premature finalize), later rounds reuse the instance and transaction ids; adversarial keys (random hashes, shared 30-byte prefixes, single 16-bit digit differences at every scope position and in either rule half, equal scope with different rules); batch sizes 0..5000 with mass at 1020-1030 (1 run in 8 quick, 1 in 4 thorough); footprints over 2 instances x {2 nodes, 2 edges, 2 attachment keys, 2 ports}; every run has a stratified block (9 access pairs on one resource + rejected-reserves-nothing triple); ~1 run in 4 adds a small engine tick for blocker witnesses; non-trivial = >=1 rejection or >=1 last-wins replacement; distinct = hash of the history",
+    quick_runs: 60_000,
+    thorough_runs: 600_000,
+    real_components: &[
+        "warp_core::verif::RawScheduler over DeterministicScheduler (RadixScheduler: PendingTx radix/comparison sort, GenSet reservation; LegacyScheduler: BTreeMap drain, Footprint::independent)",
+        "TickReceipt::try_from_retained_parts",
+        "Engine::commit_with_receipt (reserve_for_receipt, footprints_conflict) on the engine-path runs",
+    ],
+    stub_components: &["engine-path runs only: application rules are the shared data-driven interpreter rule (programs are generated data)"],
+    assumptions: &[
+        "rule ids are the big-endian encoding of the compact rule id, so (scope hash, compact id) order and (scope hash, rule id) order are isomorphic as the engine guarantees",
+        "factor masks are all-ones (sound), as the property requires for the Legacy scheduler",
+        "blocker witnesses cannot be observed through RawScheduler; they are compared on the engine path against the shared reference tick model",
+        "a second enqueue/drain/reserve batch inside one transaction (before finalize) is treated as part of the same tick: the accepted frontier persists until finalize",
+    ],
     fault_kinds: &[],
 };
 
 #[derive(Clone, Debug, Serialize, Deserialize)]
+pub struct EngineTick {
+    pub state: StateSpec,
+    pub cands: Vec<Cand>,
+    pub arrival: Vec<usize>,
+    pub cfg: EngineCfg,
+}
+
+#[derive(Clone, Debug, Serialize, Deserialize)]
 pub struct C03 {
-    pub placeholder: u8,
+    /// compact rule ids; rule index -> (rule id hash, compact id) with isomorphic order
+    pub rules: Vec<u32>,
+    pub rounds: Vec<Round>,
+    pub engine: Option<EngineTick>,
 }
 
 impl Scenario for C03 {
-    fn generate(_rng: &mut Rng, _tier: Tier, _avoid: bool) -> Self {
-        C03 { placeholder: 0 }
+    fn generate(rng: &mut Rng, tier: Tier, avoid: bool) -> Self {
+        let big = rng.chance(1, if tier == Tier::Thorough { 4 } else { 8 });
+        let rules = gen::gen_rules(rng);
+        let mut rounds = Vec::new();
+        let strat_first = rng.chance(1, 2);
+        if strat_first {
+            rounds.push(gen::gen_stratified(rng, &rules));
+        }
+        let main = gen::gen_round(rng, &rules, big, &[]);
+        let ids: Vec<u64> = main.txs.iter().map(|t| t.id).collect();
+        rounds.push(main);
+        // a later round on the same instance, often reusing transaction ids
+        if rng.chance(1, 3) {
+            rounds.push(gen::gen_round(rng, &rules, false, &ids));
+        }
+        if !strat_first {
+            rounds.push(gen::gen_stratified(rng, &rules));
+        }
+        let engine = if rng.chance(1, 4) {
+            let n_small = rng.urange(2, 10);
+            let _ = avoid;
+            // always steer around re-parenting of attached edges: that shape belongs to C04/C14
+            let (state, cands) = c01::gen_tick(rng, true, false, n_small);
+            let arrivals = c01::gen_arrivals(rng, cands.len(), 3);
+            let arrival = arrivals.last().cloned().unwrap_or_default();
+            let cfg = c01::gen_cfg(rng, cands.len());
+            Some(EngineTick { state, cands, arrival, cfg })
+        } else {
+            None
+        };
+        C03 { rules, rounds, engine }
     }
-    fn execute(&self, _ctx: &mut RunCtx) -> Outcome {
+
+    fn execute(&self, ctx: &mut RunCtx) -> Outcome {
+        // ---- reference history ----
+        let mut reference = RefScheduler::default();
+        let (ref_obs, ref_stats) = drive(&mut reference, &self.rounds, &self.rules, None);
+        let n_tx_total: usize = self.rounds.iter().map(|r| r.txs.len()).sum();
+
+        // ---- real schedulers, same history ----
+        let mut radix_obs: Option<Vec<Vec<TxObs>>> = None;
+        for (kind, name) in [(SchedulerKind::Radix, "radix"), (SchedulerKind::Legacy, "legacy")] {
+            let main = match kernel::catch(|| {
+                let mut s = Real::new(kind);
+                drive(&mut s, &self.rounds, &self.rules, None).0
+            }) {
+                Ok(o) => o,
+                Err(p) => return Outcome::violation(format!("scheduler_panicked:{name}"), p),
+            };
+            for (ri, round) in self.rounds.iter().enumerate() {
+                for (si, tx) in round.txs.iter().enumerate() {
+                    // A transaction that did not run alone on a fresh instance is re-run alone:
+                    // solo vs reference decides order/admission classes, history vs solo decides crosstalk.
+                    let solo = if n_tx_total > 1 {
+                        match kernel::catch(|| {
+                            let mut s = Real::new(kind);
+                            let mut o = drive(&mut s, &self.rounds, &self.rules, Some((ri, si))).0;
+                            std::mem::take(&mut o[ri][si])
+                        }) {
+                            Ok(o) => o,
+                            Err(p) => return Outcome::violation(format!("scheduler_panicked:{name}"), p),
+                        }
+                    } else {
+                        main[ri][si].clone()
+                    };
+                    if let Err(v) = compare_tx(name, &ref_obs[ri][si], &solo, &format!("round {ri} tx#{si} (id {}) run alone", tx.id)) {
+                        return v;
+                    }
+                    if main[ri][si] != solo {
+                        let what = first_difference(&solo, &main[ri][si]);
+                        return Outcome::violation(
+                            "tx_crosstalk",
+                            format!("{name}: round {ri} tx#{si} (id {}) behaves differently inside the history than alone on a fresh scheduler: {what}", tx.id),
+                        );
+                    }
+                }
+            }
+            if radix_obs.is_none() {
+                radix_obs = Some(main);
+            }
+        }
+        let radix_obs = radix_obs.unwrap_or_default();
+
+        // ---- receipt invariants: real decisions + reference blockers must form a valid receipt ----
+        for (ri, round) in self.rounds.iter().enumerate() {
+            for (si, tx) in round.txs.iter().enumerate() {
+                let (o, r) = (&radix_obs[ri][si], &ref_obs[ri][si]);
+                let (Some(d), Some(a), Some(bl)) = (o.drains.first(), o.accepts.first(), r.blockers.first()) else { continue };
+                if a.len() != d.len() || bl.len() != d.len() {
+                    continue; // aborted before all reserves
+                }
+                let entries: Vec<TickReceiptEntry> = d
+                    .iter()
+                    .zip(a)
+                    .map(|(k, acc)| TickReceiptEntry {
+                        rule_id: k.rule_id,
+                        scope_hash: k.scope_hash,
+                        scope: NodeKey { warp_id: real::warp(0), local_id: NodeId(k.scope_hash) },
+                        disposition: if *acc == Some(true) {
+                            TickReceiptDisposition::Applied
+                        } else {
+                            TickReceiptDisposition::Rejected(TickReceiptRejection::FootprintConflict)
+                        },
+                    })
+                    .collect();
+                match TickReceipt::try_from_retained_parts(TxId::from_raw(tx.id), entries.clone(), bl.clone()) {
+                    Ok(rec) => {
+                        crate::ensure!(
+                            rec.entries() == entries.as_slice() && (0..entries.len()).all(|i| rec.blocked_by(i) == bl[i].as_slice()),
+                            "receipt_parts_altered",
+                            "round {ri} tx#{si}: reconstructed receipt differs from its parts"
+                        );
+                    }
+                    Err(e) => {
+                        return Outcome::violation(
+                            "receipt_parts_rejected",
+                            format!("round {ri} tx#{si}: scheduler decisions + reference blockers rejected by try_from_retained_parts: {e}"),
+                        )
+                    }
+                }
+                ctx.hit("time.receipts_reconstructed");
+            }
+        }
+
+        // ---- engine path: exact blockers ----
+        if let Some(et) = &self.engine {
+            if let Err(v) = engine_check(et, ctx) {
+                return v;
+            }
+        }
+
+        // ---- counters, trace, signature ----
+        let mut rejected = 0u64;
+        let mut reserves = 0u64;
+        let mut enqueues = 0u64;
+        let mut th = blake3::Hasher::new();
+        for (ri, round) in self.rounds.iter().enumerate() {
+            if round.txs.len() > 1 {
+                ctx.hit("reach.multi_tx_round");
+            }
+            for (si, tx) in round.txs.iter().enumerate() {
+                let o = &radix_obs[ri][si];
+                enqueues += o.enqueues;
+                if o.finalized_early {
+                    ctx.hit("reach.aborted_tx");
+                }
+                if !tx.late.is_empty() && o.drains.len() >= 2 {
+                    ctx.hit("reach.second_batch_in_tx");
+                }
+                if tx.redrain && !o.finalized_early {
+                    ctx.hit("reach.redrain_empty");
+                }
+                if self.rounds[..ri].iter().any(|r| r.txs.iter().any(|t| t.id == tx.id)) {
+                    ctx.hit("reach.tx_id_reused_after_finalize");
+                }
+                for (d, a) in o.drains.iter().zip(&o.accepts) {
+                    ctx.hit("time.drains");
+                    match d.len() {
+                        0 => ctx.hit("reach.batch_empty"),
+                        1..=1023 => {}
+                        1024 => ctx.hit("reach.batch_exactly_1024"),
+                        _ => ctx.hit("reach.batch_above_1024"),
+                    }
+                    let (mut one_digit, mut prefix, mut same_scope) = (false, false, false);
+                    for w in d.windows(2) {
+                        let (x, y) = (&w[0], &w[1]);
+                        if x.scope_hash == y.scope_hash {
+                            same_scope = true;
+                            let (lo, hi) = ((x.compact ^ y.compact) & 0xffff, (x.compact ^ y.compact) >> 16);
+                            if (lo == 0) != (hi == 0) {
+                                one_digit = true;
+                            }
+                        } else {
+                            let differing = (0..16).filter(|p| x.scope_hash[2 * p..2 * p + 2] != y.scope_hash[2 * p..2 * p + 2]).count();
+                            if differing == 1 {
+                                one_digit = true;
+                            }
+                            if x.scope_hash[..30] == y.scope_hash[..30] {
+                                prefix = true;
+                            }
+                        }
+                    }
+                    if one_digit {
+                        ctx.hit("reach.one_digit_keys");
+                    }
+                    if prefix {
+                        ctx.hit("reach.shared_prefix_keys");
+                    }
+                    if same_scope {
+                        ctx.hit("reach.equal_scope_different_rule");
+                    }
+                    reserves += a.len() as u64;
+                    rejected += a.iter().filter(|x| **x == Some(false)).count() as u64;
+                    th.update(&(d.len() as u64).to_le_bytes());
+                    for (k, acc) in d.iter().zip(a.iter().map(Some).chain(std::iter::repeat(None))) {
+                        th.update(&k.scope_hash);
+                        th.update(&k.compact.to_le_bytes());
+                        th.update(&k.tag.to_le_bytes());
+                        th.update(&[match acc {
+                            Some(Some(true)) => 1,
+                            Some(Some(false)) => 2,
+                            Some(None) => 3,
+                            None => 0,
+                        }]);
+                    }
+                }
+            }
+        }
+        ctx.trace(th.finalize().as_bytes());
+        ctx.count("time.reserves", reserves);
+        ctx.count("time.enqueues", enqueues);
+        ctx.count("reach.rejected", rejected);
+        ctx.count("reach.last_wins_reenqueue", ref_stats.replaced);
+        ctx.count("reach.interleaved_txs", ref_stats.interleave_switches);
+        if rejected > 0 || ref_stats.replaced > 0 {
+            let sig = serde_json::to_vec(&(&self.rules, &self.rounds)).unwrap_or_default();
+            ctx.nontrivial(&sig);
+        }
         Outcome::Ok
     }
+
+    fn shrink_candidates(&self) -> Vec<Self> {
+        let mut out = Vec::new();
+        if self.engine.is_some() {
+            let mut s = self.clone();
+            s.engine = None;
+            out.push(s);
+        }
+        // drop a round
+        if self.rounds.len() > 1 || self.engine.is_some() {
+            for ri in 0..self.rounds.len() {
+                let mut s = self.clone();
+                s.rounds.remove(ri);
+                out.push(s);
+            }
+        }
+        // drop a transaction
+        for ri in 0..self.rounds.len() {
+            if self.rounds[ri].txs.len() > 1 {
+                for ti in 0..self.rounds[ri].txs.len() {
+                    let mut s = self.clone();
+                    s.rounds[ri].txs.remove(ti);
+                    out.push(s);
+                }
+            }
+        }
+        for ri in 0..self.rounds.len() {
+            // sequential instead of interleaved
+            if !self.rounds[ri].tape.is_empty() {
+                let mut s = self.clone();
+                s.rounds[ri].tape.clear();
+                out.push(s);
+            }
+            for ti in 0..self.rounds[ri].txs.len() {
+                let tx = &self.rounds[ri].txs[ti];
+                if !tx.late.is_empty() {
+                    let mut s = self.clone();
+                    s.rounds[ri].txs[ti].late.clear();
+                    out.push(s);
+                }
+                if tx.abort_at.is_some() {
+                    let mut s = self.clone();
+                    s.rounds[ri].txs[ti].abort_at = None;
+                    out.push(s);
+                }
+                if tx.redrain {
+                    let mut s = self.clone();
+                    s.rounds[ri].txs[ti].redrain = false;
+                    out.push(s);
+                }
+                // shrink the batch: drop chunks, then single enqueues
+                let n = tx.enq.len();
+                if n > 8 {
+                    let mut last_chunk = 0;
+                    for g in [2usize, 8, 32, 128] {
+                        let chunk = n.div_ceil(g);
+                        if chunk == last_chunk || (chunk == 1 && n <= 64) {
+                            continue;
+                        }
+                        last_chunk = chunk;
+                        for c in 0..g {
+                            let (lo, hi) = (c * chunk, ((c + 1) * chunk).min(n));
+                            if lo < hi {
+                                let mut s = self.clone();
+                                s.rounds[ri].txs[ti].enq.drain(lo..hi);
+                                out.push(s);
+                            }
+                        }
+                    }
+                    // all footprints empty at once (order / dedupe failures do not need them)
+                    if tx.enq.iter().any(|e| !e.fp.is_empty()) {
+                        let mut s = self.clone();
+                        for e in &mut s.rounds[ri].txs[ti].enq {
+                            e.fp.clear();
+                        }
+                        out.push(s);
+                    }
+                }
+                if n <= 64 {
+                    for i in 0..n {
+                        let mut s = self.clone();
+                        s.rounds[ri].txs[ti].enq.remove(i);
+                        out.push(s);
+                    }
+                    // simplify footprints and keys
+                    for i in 0..n {
+                        for f in 0..tx.enq[i].fp.len() {
+                            let mut s = self.clone();
+                            s.rounds[ri].txs[ti].enq[i].fp.remove(f);
+                            out.push(s);
+                        }
+                        if tx.enq[i].k.p < 16 && tx.enq[i].k.v != 0 {
+                            let mut s = self.clone();
+                            s.rounds[ri].txs[ti].enq[i].k.v = 0;
+                            out.push(s);
+                        }
+                    }
+                }
+                for i in 0..tx.late.len() {
+                    let mut s = self.clone();
+                    s.rounds[ri].txs[ti].late.remove(i);
+                    out.push(s);
+                }
+            }
+        }
+        // engine tick: drop a candidate
+        if let Some(et) = &self.engine {
+            for ci in 0..et.cands.len().min(40) {
+                let mut s = self.clone();
+                if let Some(e) = s.engine.as_mut() {
+                    e.cands.remove(ci);
+                    e.arrival.retain(|i| *i != ci);
+                    for x in e.arrival.iter_mut() {
+                        if *x > ci {
+                            *x -= 1;
+                        }
+                    }
+                    e.cfg.other_tx.clear();
+                }
+                out.push(s);
+            }
+            if et.cfg != EngineCfg::default() {
+                let mut s = self.clone();
+                if let Some(e) = s.engine.as_mut() {
+                    e.cfg = EngineCfg::default();
+                }
+                out.push(s);
+            }
+        }
+        out
+    }
+}
+
+fn show_key(k: &DKey) -> String {
+    format!("({}, rule {:#010x}, tag {:#x})", hex::encode(k.scope_hash), k.compact, k.tag)
+}
+
+fn show_masks(m: &Masks) -> String {
+    let mut parts = Vec::new();
+    for r in 0..16u8 {
+        let bit = 1u16 << r;
+        let acc = if m.p & bit != 0 {
+            "port"
+        } else if m.w & bit != 0 && m.r & bit != 0 {
+            "read+write"
+        } else if m.w & bit != 0 {
+            "write"
+        } else if m.r & bit != 0 {
+            "read"
+        } else {
+            continue;
+        };
+        let name = ["node0", "node1", "edge0", "edge1", "alpha(node0)", "beta(edge0)", "port0", "port1"][usize::from(r % 8)];
+        parts.push(format!("W{}.{name}:{acc}", r / 8));
+    }
+    format!("{{{}}}", parts.join(", "))
+}
+
+/// Compare one scheduler's record of a transaction with the reference's.
+fn compare_tx(kind: &str, reference: &TxObs, got: &TxObs, label: &str) -> Result<(), Outcome> {
+    if reference.drains.len() != got.drains.len() {
+        return Err(Outcome::violation("harness:drain_count", format!("{label}: {} vs {} drain calls", reference.drains.len(), got.drains.len())));
+    }
+    for (bi, (rd, gd)) in reference.drains.iter().zip(&got.drains).enumerate() {
+        let key = |k: &DKey| (k.scope_hash, k.rule_id, k.compact);
+        if rd.len() != gd.len() || rd.iter().zip(gd).any(|(a, b)| key(a) != key(b)) {
+            let at = rd.iter().zip(gd).position(|(a, b)| key(a) != key(b)).unwrap_or(rd.len().min(gd.len()));
+            let mut rs: Vec<_> = rd.iter().map(key).collect();
+            let mut gs: Vec<_> = gd.iter().map(key).collect();
+            rs.sort_unstable();
+            gs.sort_unstable();
+            let how = if rs == gs { "same candidates, different order" } else { "different candidate sets" };
+            return Err(Outcome::violation(
+                format!("drain_order:{kind}_vs_reference"),
+                format!(
+                    "{label}, drain #{bi}: {how}; {kind} drained {} candidates, reference {}; first difference at index {at}: {kind} {} reference {}",
+                    gd.len(),
+                    rd.len(),
+                    gd.get(at).map(show_key).unwrap_or_else(|| "-".into()),
+                    rd.get(at).map(show_key).unwrap_or_else(|| "-".into())
+                ),
+            ));
+        }
+        if let Some(at) = rd.iter().zip(gd).position(|(a, b)| a.tag != b.tag) {
+            return Err(Outcome::violation(
+                "dedupe_winner",
+                format!("{label}, drain #{bi}, index {at}: {kind} kept enqueue {} but the last enqueue of that key is {}", show_key(&gd[at]), show_key(&rd[at])),
+            ));
+        }
+        let (ra, ga) = (&reference.accepts[bi], &got.accepts[bi]);
+        if ra.len() != ga.len() {
+            return Err(Outcome::violation("harness:reserve_count", format!("{label}: drain #{bi}: {} vs {} reserve calls", ra.len(), ga.len())));
+        }
+        if let Some(at) = ra.iter().zip(ga).position(|(a, b)| a != b) {
+            let masks = reference.masks.get(bi).cloned().unwrap_or_default();
+            let me = masks.get(at).copied().unwrap_or_default();
+            let mut detail = format!(
+                "{label}, drain #{bi}, candidate {at} {} footprint {}: {kind} reserve = {:?}, reference = {:?}",
+                show_key(&rd[at]),
+                show_masks(&me),
+                ga[at],
+                ra[at]
+            );
+            // Does the candidate collide with an earlier candidate the reference REJECTED?
+            let mut class = format!("admission:{kind}");
+            if ra[at] == Some(true) && ga[at] == Some(false) {
+                if let Some(j) = (0..at).find(|j| ra[*j] == Some(false) && masks[*j].conflicts(&me)) {
+                    class = "rejected_candidate_reserved".to_owned();
+                    detail.push_str(&format!("; it overlaps only rejected candidate {j} {}, which must have reserved nothing", show_masks(&masks[j])));
+                }
+            } else if ra[at] == Some(false) {
+                if let Some(bl) = reference.blockers.get(bi).and_then(|b| b.get(at)) {
+                    detail.push_str(&format!("; reference blockers {bl:?}"));
+                    for j in bl.iter().take(3) {
+                        if let Some(m) = masks.get(*j as usize) {
+                            detail.push_str(&format!(" [{j}: {}]", show_masks(m)));
+                        }
+                    }
+                }
+            }
+            return Err(Outcome::violation(class, detail));
+        }
+    }
+    Ok(())
+}
+
+fn first_difference(solo: &TxObs, hist: &TxObs) -> String {
+    if solo.drains.len() != hist.drains.len() {
+        return format!("{} vs {} drains", solo.drains.len(), hist.drains.len());
+    }
+    for (bi, (a, b)) in solo.drains.iter().zip(&hist.drains).enumerate() {
+        if a != b {
+            let at = a.iter().zip(b).position(|(x, y)| x != y).unwrap_or(a.len().min(b.len()));
+            return format!(
+                "drain #{bi} differs at index {at} (alone {} candidates: {}; in history {} candidates: {})",
+                a.len(),
+                a.get(at).map(show_key).unwrap_or_else(|| "-".into()),
+                b.len(),
+                b.get(at).map(show_key).unwrap_or_else(|| "-".into())
+            );
+        }
+        if solo.accepts[bi] != hist.accepts[bi] {
+            let at = solo.accepts[bi].iter().zip(&hist.accepts[bi]).position(|(x, y)| x != y).unwrap_or(0);
+            return format!("drain #{bi} reserve #{at}: alone {:?}, in history {:?}", solo.accepts[bi].get(at), hist.accepts[bi].get(at));
+        }
+    }
+    "bookkeeping differs".to_owned()
+}
+
+/// Engine path: receipt order, dispositions and EXACT blocker sets against the shared reference
+/// tick model, and the receipt's retained parts must be accepted by `try_from_retained_parts`.
+fn engine_check(et: &EngineTick, ctx: &mut RunCtx) -> Result<(), Outcome> {
+    let pre = et.state.build_ref().map_err(|e| Outcome::violation("harness:ref_state_build", e))?;
+    let reference = ref_tick(&pre, &et.cands);
+    let tape: [u16; 4] = [0, 1, 2, 3];
+    let obs = run_tick(&et.state, &et.cands, &et.arrival, &et.cfg, if et.cfg.workers > 1 { Some(&tape) } else { None })
+        .map_err(|e| Outcome::violation("harness:state_construction", e))?;
+    ctx.hit("reach.engine_tick");
+    ctx.count("time.ticks", 1);
+    if let Err(Outcome::Violation { class, detail }) = c01::check_against_reference(&pre, &reference, &obs, ctx) {
+        match class.as_str() {
+            "reference_mismatch:canonical_order" => return Err(Outcome::violation("engine_receipt:canonical_order", detail)),
+            "reference_mismatch:admission" => return Err(Outcome::violation("engine_receipt:admission", detail)),
+            "reference_mismatch:blockers" => return Err(Outcome::violation("engine_receipt:blockers", detail)),
+            // post-state / commit-error disagreements are C01's and C04's subject, not C03's
+            _ => ctx.hit("other.engine_tick_mismatch_outside_c03_scope"),
+        }
+    }
+    let TickResult::Committed(c) = &obs.result else {
+        ctx.hit("reach.engine_tick_without_receipt");
+        return Ok(());
+    };
+    // Own statement of the witness law, independent of the helper above.
+    for (i, (e, bl)) in c.receipt.entries.iter().zip(&c.receipt.blocked_by).enumerate() {
+        if e.3 && !bl.is_empty() {
+            return Err(Outcome::violation("engine_receipt:applied_entry_has_blockers", format!("entry {i} applied with blockers {bl:?}")));
+        }
+        if !e.3 {
+            ctx.hit("reach.engine_rejected_with_blockers");
+            let exp = reference.blockers.get(i).cloned().unwrap_or_default();
+            if *bl != exp {
+                return Err(Outcome::violation("engine_receipt:blockers", format!("entry {i}: engine blockers {bl:?}, reference {exp:?}")));
+            }
+            if bl.len() > 1 {
+                ctx.hit("reach.engine_multiple_blockers");
+            }
+        }
+    }
+    let Some(engine) = obs.engine.as_ref() else { return Ok(()) };
+    let Some((_, receipt, _)) = engine.get_ledger().last() else {
+        return Err(Outcome::violation("harness:ledger_empty", "engine committed but the ledger holds no receipt"));
+    };
+    let entries: Vec<TickReceiptEntry> = receipt.entries().to_vec();
+    let blocked: Vec<Vec<u32>> = (0..entries.len()).map(|i| receipt.blocked_by(i).to_vec()).collect();
+    match TickReceipt::try_from_retained_parts(receipt.tx(), entries, blocked) {
+        Ok(r) => {
+            if r != *receipt {
+                return Err(Outcome::violation("receipt_parts_altered", "engine receipt rebuilt from its parts differs (entries, blockers or digest)"));
+            }
+        }
+        Err(e) => return Err(Outcome::violation("receipt_parts_rejected", format!("engine receipt parts rejected: {e}"))),
+    }
+    Ok(())
 }
